@@ -39,6 +39,10 @@ def specs_for(t, rnd):
         bgv = tuple(rnd.randrange(256) for _ in range(3))
         if rnd.random() < 0.15:
             bgv = rnd.choice([(0, 0, 0), (255, 255, 255), (128, 128, 128)])
+        elif rnd.random() < 0.15 or k % 15 == 2:
+            # two equal channels, the third different (blue, navy, yellow, ...): "is this grey?" tests that look at two channels only
+            x_, y_ = rnd.randrange(256), rnd.randrange(256)
+            bgv = rnd.choice([(x_, x_, y_), (x_, y_, x_), (y_, x_, x_), (0, 0, 255), (255, 255, 0), (0, 0, 128)])
         ban = 1000
         r10 = k % 10
         if r10 == 1:      # normalised float tuple: multiples of 0.2 are exact (0.2 * 255 = 51)
@@ -91,6 +95,10 @@ def specs_for(t, rnd):
             comp = {"kind": "rgb", "v": list(fg), "an": an, "ad": 1000}
         else:
             h, s10, l10 = rnd.randrange(360), rnd.randrange(1001), rnd.randrange(1001)
+            if k % 5 == 2:
+                s10 = rnd.choice([0, 0, 0, 1, 1000])          # achromatic (and fully saturated) texts
+                if an in (0, 1000):
+                    an = rnd.choice([250, 500, 750])
             text = fn_variant("hsla", [str(h), tenths(s10) + "%", tenths(l10) + "%", a_text(an, k)], k)
             comp = {"kind": "hsl", "h": h, "s": s10, "l": l10, "an": an, "ad": 1000}
         if len(hist) < 60 and k % 7 != 3:
